@@ -248,7 +248,7 @@ BT = {
     "UPDATE": (["C04", "C16"], "btcp_update (connection): epoll mask = map(awaited condition), bell only for terminal states / completed query"),
     "SERVER_UPDATE": (["C04", "C16"], "btcp_update (server): EPOLLIN on the listen descriptor iff ACCEPTABLE awaited"),
     "SETOPT": (["C11", "C10"], "tcp.keepalive*/tcp.user_timeout setters from any state with a setsockopt that may fail: kernel options of the live descriptor = f(stored options), rejected value changes nothing, full 64-bit values"),
-    "ESTABLISH": (["C11", "C13", "C06", "C04", "C05"], "one try_establish step from resolving/connecting over DNS and TCONNECT contract mocks: options changed during establishment are applied, resolver list passed on, errnos remembered"),
+    "ESTABLISH": (["C11", "C13", "C06", "C04", "C05", "C08", "C16"], "one try_establish step from resolving/connecting over DNS and TCONNECT contract mocks: options changed during establishment are applied, resolver list passed on, errnos remembered"),
     "ONCE": (["C11"], "creation-only attributes (dns.*, tcp.connect_timeout, ipv6.scope, xcm.local_addr) in every state: EACCES afterwards, nothing changed"),
 }
 for op, (props, d) in BT.items():
@@ -346,6 +346,8 @@ for alg, an in ((1, "single"), (2, "sequential"), (3, "happy_eyeballs")):
     ob("tconnect.connect." + an, "tconnect/tconnect_h.c", ["-DOP_CONNECT", "-DALG=%d" % alg, "-DNIPS=3"], ["C13", "C11"], unwind=5,
        desc="tconnect_connect with algorithm '%s' on 3 addresses of any family mix: track layout, IPv4 head-start delay, list order kept, local address copied and used by attempts made after the call returned" % an)
 ob("tconnect.create", "tconnect/tconnect_h.c", ["-DOP_CREATE"], ["C08", "C05"], unwind=5, desc="tconnect_create/destroy with socket() and timerfd_create() failing at will: NULL and nothing leaked; both sockets closed once")
+ob("tconnect.destroy", "tconnect/tconnect_h.c", ["-DOP_DESTROY"], ["C08", "C04", "C13"], unwind=5, flags=["--memory-leak-check"],
+   desc="tconnect_destroy as owner (xcm_close) and as non-owner (xcm_cleanup in a forked child) from an arbitrary tconnect in mid-connect (0..2 tracks: head-start delay, pending attempt with registration and connect timer, failed): sockets closed once, everything freed, and the non-owner touches neither the shared epoll set nor any timer (the timerfd is shared with the owner)")
 for op, d in (("SCHEDULE", "timer_mgr_schedule from an arbitrary manager of <= 3 timers: timerfd armed at the earliest expiry"),
               ("CANCEL", "timer_mgr_cancel/ack: exactly that timer removed, timerfd re-armed at the earliest remaining expiry or disarmed"),
               ("EXPIRED", "timer_mgr_has_expired <=> now > expiry"), ("LIFE", "timer_mgr_create/destroy with timerfd_create failing at will")):
